@@ -1590,6 +1590,10 @@ fn process_dom_node<T: Write>(
                             Box::new(move |_, cs: Vec<RenderNode>| {
                                 if cs.iter().any(|c| !c.is_shallow_empty()) {
                                     Ok(Some(RenderNode::new_styled(Link(href, cs), computed)))
+                                } else if cs.iter().any(|c| matches!(&c.info, Text(t) if !t.is_empty())) {
+                                    // No link text, but keep white space so that the
+                                    // words on either side are not joined together.
+                                    Ok(Some(RenderNode::new_styled(Container(cs), computed)))
                                 } else {
                                     Ok(None)
                                 }
